@@ -377,7 +377,10 @@ func c56Mutate(rt *rapid.T, w []byte) ([]byte, string) {
 var c56V4 = []string{"203.0.113.77", "10.1.2.3", "255.255.255.255", "1.0.0.1", "127.0.0.1"}
 var c56V6 = []string{"2001:db8::77", "fe80::1", "::1", "2a00:1450:4001:81b::200e", "ffff:ffff:ffff:ffff:ffff:ffff:ffff:ffff"}
 
-func c56DrawClient(rt *rapid.T, c *c56Case) {
+func c56DrawClient(rt *rapid.T, c *c56Case) { c56DrawClientForm(rt, c, -1) }
+
+// c56DrawClientForm draws the client address; form -1: any, 2: via X-Real-Ip of a trusted upstream.
+func c56DrawClientForm(rt *rapid.T, c *c56Case, form int) {
 	v4 := rapid.Bool().Draw(rt, "client-v4")
 	var text string
 	if v4 {
@@ -391,7 +394,10 @@ func c56DrawClient(rt *rapid.T, c *c56Case) {
 	c.ClientIP = text
 	port := rapid.IntRange(1024, 65535).Draw(rt, "cport")
 	upstream := &net.TCPAddr{IP: net.IPv4(10, 200, 0, 9).To4(), Port: 33000}
-	switch rapid.IntRange(0, 3).Draw(rt, "client-form") {
+	if form < 0 {
+		form = rapid.IntRange(0, 3).Draw(rt, "client-form")
+	}
+	switch form {
 	case 0: // direct connection: accept() yields a 4-byte IP for AF_INET peers, 16 bytes for AF_INET6
 		ip := net.ParseIP(text)
 		if v4 {
@@ -426,7 +432,7 @@ func c56DrawClient(rt *rapid.T, c *c56Case) {
 
 // ------------------------------------------------------------ run + oracle
 
-func c56BuildRequest(c *c56Case) (*bfe_basic.Request, error) {
+func c56BuildRequest(c *c56Case, sess *bfe_basic.Session) (*bfe_basic.Request, error) {
 	var raw bytes.Buffer
 	switch c.Method {
 	case "GET":
@@ -461,9 +467,11 @@ func c56BuildRequest(c *c56Case) (*bfe_basic.Request, error) {
 		return nil, err
 	}
 	conn := &c46Conn{remote: c.remote, local: c46SockLocal}
-	sess := bfe_basic.NewSession(conn)
-	sess.IsSecure = true
-	req := bfe_basic.NewRequest(hr, conn, nil, sess, nil)
+	if sess == nil { // first request of a connection
+		sess = bfe_basic.NewSession(conn)
+		sess.IsSecure = true
+	}
+	req := bfe_basic.NewRequest(hr, sess.Connection, nil, sess, nil)
 	req.ClientAddr = c.client
 	return req, nil
 }
@@ -499,7 +507,17 @@ func c56Opts(rrs []dns.RR) []*dns.OPT {
 	return out
 }
 
-func c56Check(tb ev.TB, rec *ev.Rec, c *c56Case) {
+type c56Prep struct {
+	expect  string
+	isV4    bool
+	eff     net.IP
+	verdict int
+	where   string
+	w       c56Case
+}
+
+// c56Prepare classifies the case, fixes the expectation and records it.
+func c56Prepare(rec *ev.Rec, c *c56Case, extra ...string) *c56Prep {
 	c.WireLen = len(c.wire)
 	c.WireHex = hex.EncodeToString(c.wire)
 	eff := c.remote.IP
@@ -536,45 +554,53 @@ func c56Check(tb ev.TB, rec *ev.Rec, c *c56Case) {
 	if c.HasECS {
 		classes = append(classes, "client-ecs")
 	}
+	classes = append(classes, extra...)
 	rec.Case(fmt.Sprintf("%s|%s|%s|%s|%s|%s", c.Method, c.QueryForm, c.WireHex, c.ClientForm, c.ClientIP, c.Gen), nt, classes...)
 	sample := *c
 	if len(sample.WireHex) > 160 {
 		sample.WireHex = sample.WireHex[:160] + "..."
 	}
 	rec.Sample(sample)
-	w := sample
+	return &c56Prep{expect: expect, isV4: isV4, eff: eff, verdict: verdict, where: where, w: sample}
+}
 
-	req, err := c56BuildRequest(c)
-	if err != nil {
-		tb.Fatalf("HARNESS BUG: request does not parse: %v", err)
-	}
-	var out *dns.Msg
-	var cerr error
-	var packed []byte
-	if p := ev.Try(func() {
-		out, cerr = mod_doh.RequestToDnsMsg(req)
-		if cerr == nil {
-			packed, cerr = out.Pack() // dns.Client.Exchange -> Conn.WriteMsg -> Pack
-			if cerr != nil {
-				cerr = fmt.Errorf("forwarding fails, message does not pack: %v", cerr)
-			}
-		}
-	}); p != nil {
-		if !c56Fail(rec, tb, "panic", w, "mod_doh panicked: %v", p) {
-			rec.Excluded("known-finding:panic")
-		}
+// c56Convert does what DnsClient.Fetch does up to the first datagram: convert, then pack.
+type c56Out struct {
+	msg    *dns.Msg
+	packed []byte
+	err    error
+	pan    any
+}
+
+func (o *c56Out) convert(req *bfe_basic.Request) {
+	o.pan = ev.Try(func() { o.msg, o.err = mod_doh.RequestToDnsMsg(req) })
+}
+
+// pack: dns.Client.Exchange -> Conn.WriteMsg -> Pack (once per attempt of exchangeWithRetry)
+func (o *c56Out) pack() {
+	if o.pan != nil || o.err != nil {
 		return
 	}
-	fail := func(key, format string, args ...any) bool {
-		if !c56Fail(rec, tb, key, w, format, args...) {
-			rec.Excluded("known-finding:" + key)
-			return false
+	o.pan = ev.Try(func() {
+		o.packed, o.err = o.msg.Pack()
+		if o.err != nil {
+			o.err = fmt.Errorf("forwarding fails, message does not pack: %v", o.err)
 		}
-		return true
+	})
+}
+
+// c56Judge compares what was forwarded for c with the expectation. Every
+// discrepancy goes to report(key, msg); report returns true to stop judging.
+func c56Judge(tb ev.TB, rec *ev.Rec, c *c56Case, p *c56Prep, o *c56Out, report func(key, msg string) bool) {
+	expect, isV4, eff, verdict, where := p.expect, p.isV4, p.eff, p.verdict, p.where
+	packed, cerr := o.packed, o.err
+	fail := func(key, format string, args ...any) bool { return report(key, fmt.Sprintf(format, args...)) }
+	if o.pan != nil {
+		fail("panic", "mod_doh panicked: %v", o.pan)
+		return
 	}
 	switch expect {
 	case "dont-care":
-		rec.Excluded("no-firm-expectation")
 		return
 	case "reject":
 		if cerr == nil {
@@ -730,9 +756,197 @@ func c56Check(tb ev.TB, rec *ev.Rec, c *c56Case) {
 	}
 }
 
+func c56Reporter(tb ev.TB, rec *ev.Rec, w any) func(key, msg string) bool {
+	return func(key, msg string) bool {
+		if !c56Fail(rec, tb, key, w, "%s", msg) {
+			rec.Excluded("known-finding:" + key)
+			return false
+		}
+		return true
+	}
+}
+
+func c56Check(tb ev.TB, rec *ev.Rec, c *c56Case) {
+	p := c56Prepare(rec, c)
+	if p.expect == "dont-care" {
+		rec.Excluded("no-firm-expectation")
+	}
+	req, err := c56BuildRequest(c, nil)
+	if err != nil {
+		tb.Fatalf("HARNESS BUG: request does not parse: %v", err)
+	}
+	var o c56Out
+	o.convert(req)
+	o.pack()
+	c56Judge(tb, rec, c, p, &o, c56Reporter(tb, rec, p.w))
+}
+
+// c56Scenario: requests are not served in isolation. `SameSession`: the
+// requests arrive on ONE kept-alive connection from a trusted upstream (one
+// bfe_basic.Session), each with its own X-Real-Ip, i.e. its own ClientAddr.
+// `Overlap`: all requests are converted before the first datagram of any of
+// them is packed, and every message is packed twice (the retry of
+// DnsClient.exchangeWithRetry) -- what concurrent requests look like from the
+// point of view of one of them. Every forwarded message must still be the
+// client's own query with the subnet of its own client.
+type c56Scenario struct {
+	Members     []*c56Case `json:"members"`
+	SameSession bool       `json:"same_session"`
+	Overlap     bool       `json:"overlap"`
+}
+
+func c56CheckScenario(tb ev.TB, rec *ev.Rec, sc *c56Scenario) {
+	tag := "scenario"
+	if sc.SameSession {
+		tag += "-same-session"
+	}
+	if sc.Overlap {
+		tag += "-overlap"
+	}
+	n := len(sc.Members)
+	preps := make([]*c56Prep, n)
+	reqs := make([]*bfe_basic.Request, n)
+	outs := make([]c56Out, n)
+	var sess *bfe_basic.Session
+	for i, c := range sc.Members {
+		preps[i] = c56Prepare(rec, c, tag)
+		var err error
+		reqs[i], err = c56BuildRequest(c, sess)
+		if err != nil {
+			tb.Fatalf("HARNESS BUG: request does not parse: %v", err)
+		}
+		if sc.SameSession {
+			sess = reqs[i].Session
+		}
+	}
+	if sc.Overlap {
+		for i := range reqs {
+			outs[i].convert(reqs[i])
+		}
+		for i := range reqs {
+			outs[i].pack()
+		}
+		for i := range reqs { // second attempt: this is the datagram that is judged
+			outs[i].pack()
+		}
+	} else {
+		for i := range reqs {
+			outs[i].convert(reqs[i])
+			outs[i].pack()
+		}
+	}
+	for i, c := range sc.Members {
+		if preps[i].expect == "dont-care" {
+			continue
+		}
+		var key, msg string
+		collect := func(k, m string) bool {
+			if key == "" {
+				key, msg = k, m
+			}
+			return true
+		}
+		c56Judge(tb, rec, c, preps[i], &outs[i], collect)
+		if key == "" {
+			continue
+		}
+		// the same request served alone on a fresh connection
+		aloneKey := ""
+		req, _ := c56BuildRequest(c, nil)
+		var alone c56Out
+		alone.convert(req)
+		alone.pack()
+		c56Judge(tb, rec, c, preps[i], &alone, func(k, m string) bool {
+			if aloneKey == "" {
+				aloneKey = k
+			}
+			return true
+		})
+		if aloneKey == "" {
+			k := "cross-request." + key
+			m := fmt.Sprintf("request %d of %d (%s) is forwarded wrongly, alone it is forwarded correctly: %s", i+1, n, tag, msg)
+			if !c56Fail(rec, tb, k, sc, "%s", m) {
+				rec.Excluded("known-finding:" + k)
+			}
+			return
+		}
+		// fails alone as well: the ordinary path reports it (with known-finding handling)
+		c56Judge(tb, rec, c, preps[i], &alone, c56Reporter(tb, rec, preps[i].w))
+		return
+	}
+}
+
+// c56DrawMember draws one request of a scenario (GET or POST, mostly valid queries).
+func c56DrawMember(rt *rapid.T, form int) *c56Case {
+	c := &c56Case{Method: "GET", QueryForm: "plain"}
+	if rapid.Bool().Draw(rt, "post") {
+		c.Method = "POST"
+	}
+	c56DrawClientForm(rt, c, form)
+	if rapid.IntRange(0, 5).Draw(rt, "member-mutated") == 0 {
+		w := c56DrawMsg(rt, c)
+		var how string
+		c.wire, how = c56Mutate(rt, w)
+		c.Gen = "mutated:" + how
+	} else {
+		c.Gen = "valid"
+		c.wire = c56DrawMsg(rt, c)
+	}
+	return c
+}
+
+func c56DrawScenario(rt *rapid.T) *c56Scenario {
+	sc := &c56Scenario{SameSession: rapid.Bool().Draw(rt, "same-session"), Overlap: rapid.Bool().Draw(rt, "overlap")}
+	form := -1
+	if sc.SameSession {
+		form = 2 // kept-alive connection of a trusted upstream: the client is named per request
+	}
+	n := rapid.IntRange(2, 3).Draw(rt, "members")
+	for i := 0; i < n; i++ {
+		sc.Members = append(sc.Members, c56DrawMember(rt, form))
+	}
+	return sc
+}
+
+// c56ScenarioSweep: fixed scenarios, IPv4 then IPv6 then IPv4 clients with plain queries
+// (no OPT) and queries carrying an OPT, for the four combinations of same-session / overlap.
+func c56ScenarioSweep(t *testing.T, rec *ev.Rec) {
+	clients := []string{"192.0.2.33", "2001:db8::42", "198.51.100.9"}
+	for _, withOpt := range []bool{false, true} {
+		for _, same := range []bool{false, true} {
+			for _, overlap := range []bool{false, true} {
+				sc := &c56Scenario{SameSession: same, Overlap: overlap}
+				for i, ip := range clients {
+					m := new(dns.Msg)
+					m.SetQuestion(fmt.Sprintf("q%d.example.org.", i), dns.TypeA)
+					m.Id = uint16(1000 + i)
+					if withOpt {
+						m.SetEdns0(1232, i == 1)
+					}
+					w, err := m.Pack()
+					if err != nil {
+						t.Fatalf("HARNESS BUG: %v", err)
+					}
+					c := &c56Case{Method: []string{"GET", "POST"}[i%2], QueryForm: "plain", Gen: "valid", HasOPT: withOpt,
+						ClientIP: ip, ClientForm: "x-real-ip", wire: w,
+						remote: &net.TCPAddr{IP: net.IPv4(10, 200, 0, 9).To4(), Port: 33000},
+						client: &net.TCPAddr{IP: net.ParseIP(ip), Port: 40000 + i}}
+					sc.Members = append(sc.Members, c)
+				}
+				c56CheckScenario(t, rec, sc)
+			}
+		}
+	}
+}
+
 func TestC56(t *testing.T) {
 	rec := ev.New("C56", "client queries built with miekg/dns (ids, flags, 1-2 questions, names up to 255 octets, optional RRs, EDNS0 OPT with DO/padding/cookie/existing client-subnet), hand-built messages of 8150..40000 B around the 8192 B POST limit, structural mutations (cuts, label lengths, pointers, bytes) judged by an own RFC 1035 walker; GET (?dns= base64url plain/padded/duplicate/missing/extra params/bad alphabet/bad length) and POST; client address IPv4 as 4-byte and 16-byte IP, IPv6, via RemoteAddr, X-Real-Ip (net.ParseIP) or nil ClientAddr. non-trivial: (IPv4 client or client message already has OPT) and a firm expectation; distinct by (method, query form, wire, client form, client ip)")
+	c56ScenarioSweep(t, rec)
 	rapid.Check(t, func(rt *rapid.T) {
+		if rapid.IntRange(0, 4).Draw(rt, "scenario") == 0 {
+			c56CheckScenario(rt, rec, c56DrawScenario(rt))
+			return
+		}
 		c := &c56Case{Method: "GET", QueryForm: "plain"}
 		if rapid.Bool().Draw(rt, "post") {
 			c.Method = "POST"
